@@ -103,7 +103,7 @@ def skeleton_repeat(draw, c):
 
 
 def c26_cases(c):
-    return st.one_of(skeleton_repeat(c), G.design_spec(c))
+    return st.one_of(G.guarded(skeleton_repeat(c)), G.design_spec(c))
 
 
 def judge(ctx):
